@@ -7,14 +7,15 @@ import framework as fw
 import libif
 
 RULE = ("(a) exhaustive: every binary matrix of every shape m x n with m, n >= 1 and m*n <= 12 (35 978 matrices); "
-        "(b) Hypothesis: shapes up to 40 x 28 drawn from four distributions (uniform, low-rank product, full column "
-        "rank, zero/single-row) and dtypes int8/int32/int64. A case is one matrix; non-trivial = rank-deficient with "
+        "(b) Hypothesis: shapes up to 40 x 28 drawn from seven distributions (uniform, low-rank product, full column "
+        "rank, sparse, layer-search shapes, duplicate+zero rows, pivots in the last columns), dtypes int8/int32/int64/uint8/bool and memory layouts (C, Fortran, strided view, transposed view, read-only). A case is one matrix; non-trivial = rank-deficient with "
         ">= 2 free columns, or full column rank (trivial kernel); distinct by (shape, rows). Oracle: own bitmask "
         "elimination, plus brute-force span / kernel enumeration when <= 12 rows / columns. A share of the cases is preceded by calls "
         "on related matrices (same entries reshaped, transposed, other dtype, one bit flipped): answers must not depend on history.")
 ASSUMPTIONS = ["numpy integer arithmetic", "own bitmask Gaussian elimination cross-checked by brute-force enumeration on all small cases"]
 BUDGET = {"quick": 120, "thorough": 1500}
-DTYPES = ["int8", "int32", "int64"]
+DTYPES = ["int8", "int32", "int64", "uint8", "bool"]
+LAYOUTS = ["C", "F", "strided-view", "transposed-view", "readonly"]
 
 
 # ---- oracle -------------------------------------------------------------------------------
@@ -90,9 +91,21 @@ def check_matrix(case):
 
     def bad(key, msg, **extra):
         pre = f" after calls on {case['prelude']} variants" if case.get("prelude") else ""
-        fails.append((key, f"{msg} [matrix {m}x{n} rows={rows} dtype={dtype}{pre}]", extra))
+        lay = f" layout={case['layout']}" if case.get("layout", "C") != "C" else ""
+        fails.append((key, f"{msg} [matrix {m}x{n} rows={rows} dtype={dtype}{lay}{pre}]", extra))
 
     A = to_np(rows, n, dtype)
+    layout = case.get("layout", "C")
+    if layout == "F":
+        A = np.asfortranarray(A)
+    elif layout == "strided-view":
+        big = np.zeros((2 * m, 2 * n), dtype=A.dtype)
+        big[::2, ::2] = A
+        A = big[::2, ::2]
+    elif layout == "transposed-view":
+        A = np.ascontiguousarray(A.T).T
+    elif layout == "readonly":
+        A.setflags(write=False)
     A0 = A.copy()
     # history: the routines are called on related matrices first (same entries in another shape / transposed / other dtype /
     # the previous matrix of the sweep); the answers for A below must not depend on that
@@ -198,7 +211,9 @@ def check_matrix(case):
         bad("null:raised", f"null_space raised {type(e).__name__}: {e}")
     # helpers used by everything else
     try:
-        if m == n:
+        # mat_mul / add are not named by the property; they are checked for integer matrices only (for boolean arrays numpy's
+        # matrix product is OR-AND by definition -- flagging that was over-reach of an earlier version of this check)
+        if m == n and dtype != "bool":
             P = f2.mat_mul(A, A)
             if not np.array_equal(np.asarray(P).astype(np.int64), (A0.astype(np.int64) @ A0.astype(np.int64)) % 2):
                 bad("mat_mul:value", "mat_mul(A, A) wrong")
@@ -218,7 +233,7 @@ def classify(case):
     free = n - r
     kind = "trivial-kernel" if free == 0 else ("free>=2" if free >= 2 else "free=1")
     nt = (n, tuple(rows)) if (free == 0 or free >= 2) else None
-    return nt, {"kernel_kind": kind, "dtype": case.get("dtype", "int8"), "prelude": "+".join(case.get("prelude", [])) or "none",
+    return nt, {"kernel_kind": kind, "dtype": case.get("dtype", "int8"), "layout": case.get("layout", "C"), "prelude": "+".join(case.get("prelude", [])) or "none",
                 "shape_bucket": f"{min(len(rows), 40) // 8 * 8}+x{n // 8 * 8}+"}
 
 
@@ -234,7 +249,9 @@ def shard_exhaustive(arg):
     mask = (1 << n) - 1
     for code in range(lo, hi):
         rows = [(code >> (i * n)) & mask for i in range(m)]
-        case = {"rows": rows, "n": n, "dtype": DTYPES[code % 3] if (m * n) >= 6 else "int8"}
+        case = {"rows": rows, "n": n, "dtype": DTYPES[code % 5] if (m * n) >= 6 else "int8"}
+        if (code // 5) % 4 == 3:
+            case["layout"] = LAYOUTS[(code // 20) % 5]
         pre = [[], ["reshape"], ["transpose"], ["flip"], ["reshape", "dtype"]][(code // 3) % 5]
         if pre:
             case["prelude"] = pre
@@ -259,7 +276,7 @@ def strategy():
 
     @st.composite
     def mats(draw):
-        kind = draw(st.sampled_from(["uniform", "lowrank", "fullcol", "sparse", "stabilizer-like"]))
+        kind = draw(st.sampled_from(["uniform", "lowrank", "fullcol", "sparse", "stabilizer-like", "duplicates+zero-rows", "late-pivots"]))
         dtype = draw(st.sampled_from(DTYPES))
         if kind == "uniform":
             m = draw(st.integers(1, 40)); n = draw(st.integers(1, 28))
@@ -288,11 +305,26 @@ def strategy():
             rows = [0] * m
             for _ in range(draw(st.integers(0, 6))):
                 rows[draw(st.integers(0, m - 1))] |= 1 << draw(st.integers(0, n - 1))
+        elif kind == "duplicates+zero-rows":
+            n = draw(st.integers(1, 28)); k = draw(st.integers(1, 6))
+            pool = [draw(st.integers(0, (1 << n) - 1)) for _ in range(k)] + [0]
+            rows = [draw(st.sampled_from(pool)) for _ in range(draw(st.integers(1, 40)))]
+        elif kind == "late-pivots":
+            # rank profile concentrated in the last columns: leading columns zero, wide matrices of full row rank
+            n = draw(st.integers(2, 28)); lead = draw(st.integers(0, n - 1)); m = draw(st.integers(1, min(12, n - lead)))
+            rows = []
+            for i in range(m):
+                v = (1 << (n - 1 - i)) | (draw(st.integers(0, (1 << n) - 1)) & ~((1 << lead) - 1))
+                rows.append(v & ~((1 << lead) - 1) | (1 << (n - 1 - i)))
+            rows = draw(st.permutations(rows))
         else:  # the shapes find_local_clifford_layer feeds: (n*m) x 4n
             q = draw(st.integers(2, 6)); k = draw(st.integers(1, q))
             m, n = q * k, 4 * q
             rows = [draw(st.integers(0, (1 << n) - 1)) for _ in range(m)]
         case = {"rows": list(rows), "n": n, "dtype": dtype, "kind": kind}
+        lay = draw(st.sampled_from(LAYOUTS + ["C", "C", "C"]))
+        if lay != "C":
+            case["layout"] = lay
         pre = draw(st.sampled_from([[], [], ["reshape"], ["transpose"], ["flip"], ["dtype"], ["reshape", "transpose"]]))
         if pre:
             case["prelude"] = pre
